@@ -235,8 +235,19 @@ def generate_meta(repo):
         raise Refuse(f'propagate_fft: metadata of the output wavefront changed: {kw}')
     return '\n'.join(out), ['float wiring translated over an abstract scalar type R; np.round/np.min/np.reciprocal guarded textually']
 
+def _guarded(fn):
+    """any structural surprise while walking the source (missing attribute, index, key) is a refusal of the translator"""
+    def wrapped(repo):
+        try:
+            return fn(repo)
+        except Refuse:
+            raise
+        except (AttributeError, IndexError, KeyError, TypeError, ValueError) as e:
+            raise Refuse(f'source structure changed ({type(e).__name__}: {e})')
+    return wrapped
+
 MODULES = [
-    {'name': 'PropagateMeta', 'src': 'lentil/propagate.py', 'generator': generate_meta, 'props': ['C02', 'C04', 'C09']},
-    {'name': 'Window', 'src': 'lentil/propagate.py', 'generator': generate, 'props': ['C02', 'C04', 'C09'],
+    {'name': 'PropagateMeta', 'src': 'lentil/propagate.py', 'generator': _guarded(generate_meta), 'props': ['C02', 'C04', 'C09']},
+    {'name': 'Window', 'src': 'lentil/propagate.py', 'generator': _guarded(generate), 'props': ['C02', 'C04', 'C09'],
      'imports': ['LentilVerif.Gen.Extent']},
 ]
